@@ -184,3 +184,8 @@ package contracts
 //@ extern func (wg *sync.WaitGroup) Done()
 //@ extern func (wg *sync.WaitGroup) Add(delta int)
 //@ extern func (wg *sync.WaitGroup) Wait()
+
+// sync/atomic.Value: an opaque cell; Load returns an arbitrary stored value (its contents are not tracked)
+//@ extern func (v *atomic.Value) Load() (val any)
+//@   pure
+//@ extern func (v *atomic.Value) Store(val any)
